@@ -253,6 +253,49 @@ def shard_dtm(arg) -> E.Tally:
     return t
 
 
+TZS = {
+    "CET": "CET-1CEST,M3.5.0,M10.5.0/3",  # Europe: gap 02:00-03:00 on the last Sunday of March
+    "UK": "GMT0BST,M3.5.0/1,M10.5.0",  # gap 01:00-02:00
+    "US-East": "EST5EDT,M3.2.0,M11.1.0",
+    "Sydney": "AEST-10AEDT,M10.1.0,M4.1.0/3",  # southern hemisphere
+}
+
+
+def shard_dtm_tz(arg) -> E.Tally:
+    """The date-time codec does not depend on the host's time zone: the days around every DST change (where a local-time
+    normalisation would shift or fold an hour) swept minute by minute with the process time zone set to a zone with DST."""
+    import os
+    import time
+
+    tzname, year = arg
+    old = os.environ.get("TZ")
+    os.environ["TZ"] = TZS[tzname]
+    time.tzset()
+    try:
+        t = E.Tally()
+        for mth in (3, 4, 10, 11):
+            for day in range(1, 32):
+                try:
+                    d = _d.date(year, mth, day)
+                except ValueError:
+                    continue
+                if d.weekday() != 6:  # DST changes happen on Sundays in all four zones
+                    continue
+                tt = shard_dtm((d.toordinal(), 1, (0,)))
+                for k, v in tt.viol.items():
+                    t.bad(k + ":tz", f"TZ={tzname}: " + v["what"], dict(v["replay"], tz=tzname))
+                t.n += tt.n
+        t.nontrivial = t.n
+        t.by["dtm_tz"] += t.n
+        return t
+    finally:
+        if old is None:
+            os.environ.pop("TZ", None)
+        else:
+            os.environ["TZ"] = old
+        time.tzset()
+
+
 def shard_dts(arg) -> E.Tally:
     """Packed fault-log timestamps: every `stride`-th second of [t0, t0+n*stride)."""
     y0, m0, d0, n, stride = arg
@@ -351,6 +394,10 @@ def run(ctx) -> None:
                 jobs.append(("shard_dtm", (_d.date(y, mth, day).toordinal(), 1, (0, 1, 30, 59))))
             except ValueError:
                 pass
+    # ... and with the process in a time zone that has DST (the codec must not care): every Sunday of Mar/Apr/Oct/Nov
+    for tz in TZS:
+        for y in (2024,) if q else (2021, 2024, 2027, 2030):
+            jobs.append(("shard_dtm_tz", (tz, y)))
     # packed timestamps: every second of two days per year of the century + stride 3599 s over the century
     for y in range(2000, 2100):
         if not q or y % 5 == 0:
@@ -369,13 +416,13 @@ def run(ctx) -> None:
         ctx,
         total,
         rule="whole finite domains: all 65,536 temperature words and all k/100 in [-273.15, 327.67]; all 4-hex doubles at factors 1/10/100; all 256 "
-        "percent/flag bytes in both resolutions/orders; every minute of the year window x DST x 12/14-hex; packed timestamps over 2000-2099: every second of 2 days in every 5th year (every year in thorough), every minute of 2 days and every 7th "
+        "percent/flag bytes in both resolutions/orders; every minute of the year window x DST x 12/14-hex (+ every Sunday of Mar/Apr/Oct/Nov under four time zones with DST); packed timestamps over 2000-2099: every second of 2 days in every 5th year (every year in thorough), every minute of 2 days and every 7th "
         "second of Dec 31 in every year, stride 3599 s over the century; all 2^24 device-id hex values (helpers pair; Address.convert_* on every 64th + block edges in quick, all in thorough). "
         "non-trivial = a value that decodes to a number/date/id (not a sentinel, not rejected)",
         exhaustive=True,
         year_window=[y0, y1 - 1],
     )
-    ctx.assumptions += ["text grid = printable ASCII without leading/trailing blanks (the decoder strips padding)", "TZ=UTC"]
+    ctx.assumptions += ["text grid = printable ASCII without leading/trailing blanks (the decoder strips padding)", "TZ=UTC, plus four POSIX time zones with DST for the date-time codec"]
 
 
 def replay(rep: dict):
@@ -383,6 +430,9 @@ def replay(rep: dict):
     fn = rep.get("fn")
     if fn in FUNCS:
         t = FUNCS[fn](rep)
+    elif fn == "dtm" and rep.get("tz"):
+        x = _d.datetime.fromisoformat(rep["iso"])
+        t = shard_dtm_tz((rep["tz"], x.year))
     elif fn == "dtm":
         x = _d.datetime.fromisoformat(rep["iso"])
         t = shard_dtm((x.toordinal(), 1, (0, 1, 30, 59)))
